@@ -1,6 +1,15 @@
 (* C19 correspondence cases: an input together with what the implementation answered *)
 From FB Require Export C19.Model Base.Run.
 
+(* strings in the case files: one hexadecimal numeral per string, 1 followed by six hex digits per
+   code point (a list of numerals is far slower to read for coqc); [ds] decodes it *)
+Fixpoint ds_dec (fuel : nat) (n : N) (acc : str) : str :=
+  match fuel with
+  | O => acc
+  | S f => if N.leb n 1 then acc else ds_dec f (N.shiftr n 24) (N.land n 0xFFFFFF :: acc)
+  end.
+Definition ds (n : N) : str := ds_dec (N.to_nat (N.size n)) n [].
+
 Definition coord_eqb (a b : coord) : bool :=
   str_eqb (c_group a) (c_group b) && str_eqb (c_artifact a) (c_artifact b) && str_eqb (c_version a) (c_version b)
   && opt_eqb str_eqb (c_classifier a) (c_classifier b) && str_eqb (c_type a) (c_type b).
